@@ -25,6 +25,7 @@ INITS = [
     (("a", "1"), ("a", "2")),
     (("a", "1"), ("b", "1"), ("a", "2")),
     (("a", "1"), ("a", ""), ("b", "2")),
+    (("a", "1"), ("b", "1"), ("a", "2"), ("a", "3")),
 ]
 DEPTH = {"quick": 4, "thorough": 6}
 
@@ -229,7 +230,8 @@ def independence(r, l, w):
 def immutable_views(r, l, w):
     from baize.datastructures import FormData, MultiMapping, QueryParams, MutableMultiMapping
 
-    independence(r, l, w)
+    if len(l) <= 3 or hash(tuple(l)) % 16 == 0:  # all short lists, every sixteenth longer one (PYTHONHASHSEED is fixed by ./check)
+        independence(r, l, w)
     rv = ref_views(l)
     for cls in (MultiMapping, QueryParams, FormData, MutableMultiMapping):
         r.count("evaluations")
@@ -252,11 +254,11 @@ def immutable_views(r, l, w):
 
 def shards(tier, seed):
     out = [("bfs", i) for i in range(len(INITS))]
-    out += [("query", i) for i in range(8)]
+    out += [("query", i) for i in range(len(QA))]
     return out
 
 
-QA = ["a", "a b", "&", "=", "%", "+", "é", ""]
+QA = ["a", "a b", "&", "=", "%", "+", "é", "", "%41", "25%20off"]
 
 
 def run_shard(desc, tier):
